@@ -35,6 +35,13 @@ Verdict(ev) ==
      ELSE IF kind = 3 THEN   \* API observation: xs,x,a,b = shape kept, dtype kept, argument unmodified, values float32-exact
        IF xs # 1 THEN "api_shape" ELSE IF x # 1 THEN "api_dtype" ELSE IF a # 1 THEN "api_argument_modified"
        ELSE IF b # 1 THEN "api_value_roundtrip" ELSE "ok"
+     ELSE IF kind = 6 THEN   \* range properties of the format object: x = float32 pattern of max_absolute_value,
+                             \* a / b = binary exponents of min_absolute_normal / min_absolute_subnormal (qs = 1: both exact powers of two)
+       IF x # PMax(E, M) THEN "max_absolute_value"
+       ELSE IF qs # 1 THEN "min_values_not_powers_of_two"
+       ELSE IF a # 1 - Pow2(E - 1) THEN "min_absolute_normal"
+       ELSE IF b # 1 - Pow2(E - 1) - M THEN "min_absolute_subnormal"
+       ELSE "ok"
      ELSE IF kind = 5 THEN   \* stochastic API observation: one draw per element in [0, 2^s), shape, dtype
        IF xs # 1 THEN "independent_draw_per_element_in_range" ELSE IF x # 1 THEN "api_shape" ELSE IF a # 1 THEN "api_dtype" ELSE "ok"
      ELSE IF kind = 4 THEN   \* stochastic, results not a monotone step: declarative part only (a = count away from zero, b/c = lo/hi results)
